@@ -25,6 +25,30 @@ class Undecided(Exception):
     """machinery could not decide (tool limit, lost anchor, vacuity, ...) -> exit 2"""
 
 
+def cached_verus(cmd, path, cwd):
+    """Verus is deterministic for a given input text, command line and version: the result of a run is
+    cached under build/cache keyed by sha256(woven text + command).  The woven text is rebuilt from /repo's
+    working tree on every run, so a change to the source or to a contract changes the key."""
+    if os.environ.get('VERIF_NO_CACHE'):
+        return sh(cmd, cwd=cwd, timeout=3600) + (False,)
+    text = open(path, 'rb').read()
+    key = hashlib.sha256(text + b'\0' + ' '.join(cmd[2:]).encode() + b'\0' + os.path.basename(path).encode()).hexdigest()
+    cdir = os.path.join(BUILD, 'cache')
+    os.makedirs(cdir, exist_ok=True)
+    cp = os.path.join(cdir, key + '.json')
+    if os.path.exists(cp):
+        try:
+            d = json.load(open(cp))
+            return d['rc'], d['out'], d['err'], d['wall'], True
+        except (ValueError, KeyError):
+            pass
+    rc, out, err, wall = sh(cmd, cwd=cwd, timeout=3600)
+    tmp = cp + '.%d.tmp' % os.getpid()
+    json.dump(dict(rc=rc, out=out, err=err, wall=wall), open(tmp, 'w'))
+    os.replace(tmp, cp)
+    return rc, out, err, wall, False
+
+
 def sh(cmd, cwd=None, timeout=None, env=None):
     e = dict(os.environ)
     if env:
@@ -239,7 +263,7 @@ def run_unit(unit, tier='quick', tag='main', solver=None):
 
     extra = ['-V', 'cvc5'] if solver == 'cvc5' else []
     cmd = verus_cmd(path, tier, extra)
-    rc, out, err, wall = sh(cmd, cwd=os.path.join(BUILD, unit), timeout=3600)
+    rc, out, err, wall, was_cached = cached_verus(cmd, path, os.path.join(BUILD, unit))
     diags, other = parse_diagnostics(err)
     verif_errs, tool_errs = classify(diags)
     try:
@@ -273,7 +297,7 @@ def run_unit(unit, tier='quick', tag='main', solver=None):
             raise Undecided('unit %s: solver resource limit: %s' % (unit, m))
     res = dict(unit=unit, path=path, info=info, obligations=obligations, errors=errors, fres=fres, trusted=trusted,
                allow=allow, verus=oj.get('verification-results'), times=oj.get('times-ms', {}), cmd=' '.join(cmd), wall=wall,
-               weave_wall=time.time() - t0 - wall, version=oj.get('verus', {}), text=text, spec=u)
+               weave_wall=time.time() - t0 - wall, cached=was_cached, version=oj.get('verus', {}), text=text, spec=u)
     return res
 
 
@@ -286,7 +310,7 @@ def run_canary(res, tier):
     fname = '%s_canary.rs' % unit
     path = os.path.join(BUILD, unit, fname)
     open(path, 'w').write(ctext)
-    rc, out, err, wall = sh(verus_cmd(path, tier), cwd=os.path.join(BUILD, unit), timeout=3600)
+    rc, out, err, wall, was_cached = cached_verus(verus_cmd(path, tier), path, os.path.join(BUILD, unit))
     diags, other = parse_diagnostics(err)
     verif_errs, tool_errs = classify(diags)
     if tool_errs:
